@@ -5,5 +5,5 @@ CONSTANTS
   Dev <- AsBuilt
 INIT Init
 NEXT Next
-INVARIANTS Terminates SingleCopy Closure Emit
+INVARIANTS ContentEqual Terminates SingleCopy Closure Emit
 CHECK_DEADLOCK FALSE
